@@ -265,6 +265,28 @@ pub fn short_strings(max_len: usize) -> Vec<Vec<u8>> {
     out
 }
 
+/// bytes at the boundaries of the character classes of the six modes
+pub const BOUNDARY: [u8; 22] = [0x7F, 0x80, 0xFF, 0x1F, 0x20, b'/', b'0', b'9', b':', b'@', b'A', b'Z', b'[', b'`', b'a', b'z', b'{', 94, 95, 13, 42, 62];
+
+/// all strings over BOUNDARY of length <= max_len
+pub fn boundary_strings(max_len: usize) -> Vec<Vec<u8>> {
+    let mut out = vec![];
+    let mut cur: Vec<Vec<u8>> = vec![vec![]];
+    for _ in 0..max_len {
+        let mut next = vec![];
+        for s in &cur {
+            for a in BOUNDARY {
+                let mut t = s.clone();
+                t.push(a);
+                next.push(t);
+            }
+        }
+        out.extend(next.iter().cloned());
+        cur = next;
+    }
+    out
+}
+
 pub fn progress(case: &str) {
     if let Ok(p) = std::env::var("VERIF_PROGRESS") {
         let _ = std::fs::write(p, case);
